@@ -1101,7 +1101,7 @@ bool Session::send_process(Message *msg) // called from the connection (possibly
 			{
 				f8_scoped_spin_lock guard(_per_spl, _connection->get_pmodel() == pm_coro); // not needed for coroutine mode
 				if (!msg->is_admin())
-					_persist->put(_next_send_seq, ptr);
+					_persist->put(_next_send_seq, optr); // this message's own encoding, not the (by now cleared) batch buffer
 				_persist->put(_next_send_seq + 1, _next_receive_seq);
 				//cout << "Persisted (send):" << (_next_send_seq + 1) << " and " << _next_receive_seq << endl;
 			}
